@@ -47,7 +47,7 @@ theorem piecesOf_cons (pre : List Char) (p : Pat) (ps : List Pat) :
 
 theorem wfPat_lit (bits inArg l) : wfPat bits inArg (.lit l) = wfLit inArg l := by rw [wfPat]
 theorem wfPat_leaf (bits inArg k long spec) :
-    wfPat bits inArg (.leaf k long spec) = (!(k == .threadId && long) && wfSpec bits spec) := by rw [wfPat]
+    wfPat bits inArg (.leaf k long spec) = wfSpec bits spec := by rw [wfPat]
 theorem wfPat_date (bits inArg long args spec) :
     wfPat bits inArg (.date long args spec) =
       ((match args with
@@ -58,10 +58,10 @@ theorem wfPat_date (bits inArg long args spec) :
   | some fz => rw [wfPat]
 theorem wfPat_mdc (bits inArg long key dflt spec) :
     wfPat bits inArg (.mdc long key dflt spec) =
-      (!key.isEmpty && key.all plainLit &&
+      (!key.isEmpty && key.all (wfLit true) &&
       (match dflt with
         | none => true
-        | some d => !d.isEmpty && d.all plainLit) && wfSpec bits spec) := by
+        | some d => !d.isEmpty && d.all (wfLit true)) && wfSpec bits spec) := by
   cases dflt with
   | none => rw [wfPat]
   | some d => rw [wfPat]
@@ -114,7 +114,7 @@ theorem plainChar_some {p : Pat} {c : Char} (h : plainChar p = some c) :
 
 mutual
 /-- `next` on a printed escape or formatter followed by anything -/
-theorem next_nonplain (cc : CharClass) (hcc : CCAscii cc) (P : Profile) :
+theorem next_nonplain (cc : CharClass) (hcc : CCAscii cc) (P : Profile) (hus : P.underscoreNames = true) :
     ∀ (p : Pat) (inArg : Bool), wfPat P.wordBits inArg p = true → plainChar p = none →
       ∀ rest : List Char, next cc P (showPat p ++ rest) = .ok (some (pieceOf p)) rest
   | .lit l, inArg, hwf, hnp, rest => by
@@ -125,14 +125,13 @@ theorem next_nonplain (cc : CharClass) (hcc : CCAscii cc) (P : Profile) :
     exact (next_escape cc P inArg l rest hwf he).1
   | .leaf k long spec, inArg, hwf, _, rest => by
     rw [wfPat_leaf] at hwf
-    simp only [Bool.and_eq_true, Bool.not_eq_true'] at hwf
-    obtain ⟨hk, hspec⟩ := hwf
+    have hspec := hwf
     obtain ⟨t, tl, htl, ht⟩ := specTail_head spec rest
     rw [showPat_leaf, pieceOf_leaf]
     have hre : ('{' :: (leafName k long ++ showSpec spec ++ ['}'])) ++ rest =
         '{' :: (leafName k long ++ t :: tl) := by simp [← htl]
     rw [hre]
-    refine next_named cc hcc P _ t tl [] spec rest (isName_leaf cc hcc k long hk) ?_ ?_ hspec
+    refine next_named cc hcc P _ t tl [] spec rest (isName_leaf cc hcc P hus k long) ?_ ?_ hspec
     · rcases ht with h | h
       · exact Or.inl h
       · exact Or.inr (Or.inl h)
@@ -148,7 +147,7 @@ theorem next_nonplain (cc : CharClass) (hcc : CCAscii cc) (P : Profile) :
       have hre : ('{' :: (dateName long ++ showDateArgs none ++ showSpec spec ++ ['}'])) ++ rest =
           '{' :: (dateName long ++ t :: tl) := by simp [showDateArgs, ← htl]
       rw [hre]
-      refine next_named cc hcc P _ t tl [] spec rest (isName_date cc hcc long) ?_ ?_ hspec
+      refine next_named cc hcc P _ t tl [] spec rest (isName_date cc hcc P long) ?_ ?_ hspec
       · rcases ht with h | h
         · exact Or.inl h
         · exact Or.inr (Or.inl h)
@@ -165,7 +164,7 @@ theorem next_nonplain (cc : CharClass) (hcc : CCAscii cc) (P : Profile) :
             '{' :: (dateName long ++ '(' :: (showLits f ++ ')' :: (showSpec spec ++ '}' :: rest))) := by
           simp [showDateArgs]
         rw [hre]
-        refine next_named cc hcc P _ '(' _ _ spec rest (isName_date cc hcc long) (Or.inr (Or.inr rfl)) ?_ hspec
+        refine next_named cc hcc P _ '(' _ _ spec rest (isName_date cc hcc P long) (Or.inr (Or.inr rfl)) ?_ hspec
         rw [argsL_arg cc P _ _ [] _ (hb1 _)]
         exact argsL_done cc P spec rest _
       | some z =>
@@ -175,7 +174,7 @@ theorem next_nonplain (cc : CharClass) (hcc : CCAscii cc) (P : Profile) :
               ('(' :: (zoneName z ++ ')' :: (showSpec spec ++ '}' :: rest))))) := by
           simp [showDateArgs]
         rw [hre]
-        refine next_named cc hcc P _ '(' _ _ spec rest (isName_date cc hcc long) (Or.inr (Or.inr rfl)) ?_ hspec
+        refine next_named cc hcc P _ '(' _ _ spec rest (isName_date cc hcc P long) (Or.inr (Or.inr rfl)) ?_ hspec
         rw [argsL_arg cc P _ _ [] _ (hb1 _)]
         have hb2 : argB cc P (zoneName z ++ ')' :: (showSpec spec ++ '}' :: rest)) [] =
             .ok [.text (zoneName z)] (showSpec spec ++ '}' :: rest) := by
@@ -187,17 +186,17 @@ theorem next_nonplain (cc : CharClass) (hcc : CCAscii cc) (P : Profile) :
     simp only [Bool.and_eq_true] at hwf
     obtain ⟨⟨⟨_, hkey⟩, hdflt⟩, hspec⟩ := hwf
     rw [showPat_mdc, pieceOf_mdc]
-    have hb : ∀ (ls : List Lit), ls.all plainLit = true → ∀ tail,
+    have hb : ∀ (ls : List Lit), ls.all (wfLit true) = true → ∀ tail,
         argB cc P (showLits ls ++ ')' :: tail) [] = .ok (litPieces [] ls) tail := by
       intro ls hls tail
-      simpa using argB_lits cc P ls [] tail [] (all_plain_wf hls) (by simp)
+      simpa using argB_lits cc P ls [] tail [] hls (by simp)
     cases dflt with
     | none =>
       have hre : ('{' :: (mdcName long ++ ('(' :: showLits key ++ [')']) ++ showDflt none ++ showSpec spec ++ ['}'])) ++ rest =
           '{' :: (mdcName long ++ '(' :: (showLits key ++ ')' :: (showSpec spec ++ '}' :: rest))) := by
         simp [showDflt]
       rw [hre]
-      refine next_named cc hcc P _ '(' _ _ spec rest (isName_mdc cc hcc long) (Or.inr (Or.inr rfl)) ?_ hspec
+      refine next_named cc hcc P _ '(' _ _ spec rest (isName_mdc cc hcc P long) (Or.inr (Or.inr rfl)) ?_ hspec
       rw [argsL_arg cc P _ _ [] _ (hb key hkey _)]
       simpa [dfltPieces] using argsL_done cc P spec rest [litPieces [] key]
     | some d =>
@@ -207,7 +206,7 @@ theorem next_nonplain (cc : CharClass) (hcc : CCAscii cc) (P : Profile) :
             ('(' :: (showLits d ++ ')' :: (showSpec spec ++ '}' :: rest))))) := by
         simp [showDflt]
       rw [hre]
-      refine next_named cc hcc P _ '(' _ _ spec rest (isName_mdc cc hcc long) (Or.inr (Or.inr rfl)) ?_ hspec
+      refine next_named cc hcc P _ '(' _ _ spec rest (isName_mdc cc hcc P long) (Or.inr (Or.inr rfl)) ?_ hspec
       rw [argsL_arg cc P _ _ [] _ (hb key hkey _)]
       rw [argsL_arg cc P _ _ _ _ (hb d hdflt.2 _)]
       simpa [dfltPieces] using argsL_done cc P spec rest [litPieces [] key, litPieces [] d]
@@ -218,7 +217,7 @@ theorem next_nonplain (cc : CharClass) (hcc : CCAscii cc) (P : Profile) :
     rw [showPat_group, pieceOf_group]
     have hb : argB cc P (showPats body ++ ')' :: (showSpec spec ++ '}' :: rest)) [] =
         .ok (piecesOf [] body) (showSpec spec ++ '}' :: rest) := by
-      simpa using argB_pats cc hcc P body hbody [] (by simp) (showSpec spec ++ '}' :: rest) []
+      simpa using argB_pats cc hcc P hus body hbody [] (by simp) (showSpec spec ++ '}' :: rest) []
     have hargs : argsL cc P ('(' :: (showPats body ++ ')' :: (showSpec spec ++ '}' :: rest))) [] =
         .ok [piecesOf [] body] (showSpec spec ++ '}' :: rest) := by
       rw [argsL_arg cc P _ _ [] _ hb]
@@ -234,9 +233,9 @@ theorem next_nonplain (cc : CharClass) (hcc : CCAscii cc) (P : Profile) :
           '{' :: (groupName k long ++ '(' :: (showPats body ++ ')' :: (showSpec spec ++ '}' :: rest))) := by
         simp
       rw [hre]
-      exact next_named cc hcc P _ '(' _ _ spec rest (isName_group cc hcc k long hk) (Or.inr (Or.inr rfl)) hargs hspec
+      exact next_named cc hcc P _ '(' _ _ spec rest (isName_group cc hcc P k long hk) (Or.inr (Or.inr rfl)) hargs hspec
 /-- the argument loop on a printed pattern list (pending ordinary text `pre`) up to its `)` -/
-theorem argB_pats (cc : CharClass) (hcc : CCAscii cc) (P : Profile) :
+theorem argB_pats (cc : CharClass) (hcc : CCAscii cc) (P : Profile) (hus : P.underscoreNames = true) :
     ∀ (ps : List Pat), wfPats P.wordBits true ps = true → ∀ pre : List Char, pre.all nonSpecial = true →
       ∀ (more : List Char) (acc : List Piece),
         argB cc P (pre ++ (showPats ps ++ ')' :: more)) acc = .ok (acc ++ piecesOf pre ps) more
@@ -255,13 +254,13 @@ theorem argB_pats (cc : CharClass) (hcc : CCAscii cc) (P : Profile) :
       rw [wfPat_lit] at hp
       have hns := wfLit_plain hp he
       rw [hc] at hns
-      have ih := argB_pats cc hcc P ps hps (pre ++ [c]) (all_nonSpecial_snoc hpre hns) more acc
+      have ih := argB_pats cc hcc P hus ps hps (pre ++ [c]) (all_nonSpecial_snoc hpre hns) more acc
       simp only [showPat_lit, showLit, he, hc]
       simpa using ih
     | none =>
       obtain ⟨hd, tl, hshape, hsp, hne⟩ := showPat_head P.wordBits true p (showPats ps ++ ')' :: more) hp hpc
-      have hn := next_nonplain cc hcc P p true hp hpc (showPats ps ++ ')' :: more)
-      have ih := argB_pats cc hcc P ps hps [] (by simp) more (acc ++ flushText pre ++ [pieceOf p])
+      have hn := next_nonplain cc hcc P hus p true hp hpc (showPats ps ++ ')' :: more)
+      have ih := argB_pats cc hcc P hus ps hps [] (by simp) more (acc ++ flushText pre ++ [pieceOf p])
       simp only [List.append_assoc]
       rw [argB_flush' cc P pre _ acc hpre (by rw [hshape]; exact hsp)]
       rw [hshape] at hn ⊢
